@@ -13,9 +13,11 @@ import (
 	"crypto/rsa"
 	"crypto/sha256"
 	"crypto/sha512"
+	"encoding/asn1"
 	"encoding/hex"
 	"fmt"
 	"hash"
+	"io"
 	"math/big"
 	"sync"
 
@@ -341,6 +343,65 @@ func signCase[P any](a alg, class string, payload P, aad []byte, detached bool, 
 	}
 }
 
+// scriptedSigner returns an ASN.1 signature with chosen (r, s): the RFC 8152 conversion of COSE (fixed-width r||s) is
+// a function of (r, s) alone, so its width rule can be enumerated for every number of leading zero octets without
+// waiting for a real signature that happens to have them (two leading zero octets: one signature in 32768).
+type scriptedSigner struct {
+	pub  *ecdsa.PublicKey
+	r, s *big.Int
+}
+
+func (k scriptedSigner) Public() crypto.PublicKey { return k.pub }
+func (k scriptedSigner) Sign(io.Reader, []byte, crypto.SignerOpts) ([]byte, error) {
+	return asn1.Marshal(struct{ R, S *big.Int }{k.r, k.s})
+}
+
+// fixedWidth: for every pair (zr, zs) of leading-zero-octet counts 0..n of r and s, COSE's signature is exactly
+// 2n octets: r and s each left-padded to n octets.
+func fixedWidth(a alg) {
+	pub, ok := a.key.Public().(*ecdsa.PublicKey)
+	if !ok {
+		return
+	}
+	n := a.n
+	for zr := 0; zr <= n; zr++ {
+		for zs := 0; zs <= n; zs++ {
+			if (zr == n) != (zs == n) && zr != 0 && zs != 0 {
+				continue
+			}
+			mk := func(z int, seed byte) *big.Int {
+				b := make([]byte, n)
+				for i := z; i < n; i++ {
+					b[i] = seed + byte(i)
+					if i == z && b[i] == 0 {
+						b[i] = 1
+					}
+				}
+				return new(big.Int).SetBytes(b)
+			}
+			rr, ss := mk(zr, 0x11), mk(zs, 0x31)
+			r.Evaluations.Add(1)
+			var sig []byte
+			var err error
+			p := probe.Call(func() { sig, err = cose.RFC8152Signer{Signer: scriptedSigner{pub, rr, ss}}.Sign(rand.Reader, make([]byte, 32), nil) })
+			what := fmt.Sprintf("%s: r with %d and s with %d leading zero octets", a.name, zr, zs)
+			repl := map[string]any{"alg": a.name, "class": "fixed-width", "r": rr.Text(16), "s": ss.Text(16)}
+			switch {
+			case p != nil:
+				r.Violation(p.Key(), what+": RFC8152Signer.Sign panics: "+p.Value, repl)
+			case err != nil:
+				r.Violation("sig-width:"+a.name, what+": RFC8152Signer.Sign fails: "+err.Error(), repl)
+			default:
+				want := append(rr.FillBytes(make([]byte, n)), ss.FillBytes(make([]byte, n))...)
+				if !bytes.Equal(sig, want) {
+					r.Violation("sig-width:"+a.name, fmt.Sprintf("%s: COSE signature is %d octets %x, RFC 8152 fixed width gives %d octets %x", what, len(sig), sig, len(want), want), repl)
+				}
+			}
+			r.Distinct(fmt.Sprintf("%s|fixed-width|%d|%d", a.name, zr, zs))
+		}
+	}
+}
+
 // leadingZeroSignatures: bounded witness search for ECDSA signatures whose r or s has leading zero bytes.
 func leadingZeroSignatures(a alg, tries int) {
 	found := 0
@@ -553,6 +614,7 @@ func main() {
 					tries = 20000
 				}
 				leadingZeroSignatures(a, tries)
+				fixedWidth(a)
 			}
 		}()
 	}
